@@ -181,10 +181,7 @@ func (sv *searchVars) inList(s *slip.Scope, seq2 slip.List, depth int) slip.Obje
 	case *slip.Vector:
 		seq1 = s1.AsList()
 	case slip.String:
-		if 0 < len(s1) {
-			return nil
-		}
-		return slip.Fixnum(0)
+		seq1, _ = slip.CoerceToList(s1).(slip.List)
 	default:
 		slip.TypePanic(s, depth, "sequence-1", s1, "sequence")
 	}
@@ -206,9 +203,9 @@ func (sv *searchVars) searchList(s *slip.Scope, seq1, seq2 slip.List, depth int)
 	seq2 = seq2[sv.start2:sv.end2]
 	if len(seq1) == 0 {
 		if sv.fromEnd {
-			return slip.Fixnum(len(seq2))
+			return slip.Fixnum(sv.start2 + len(seq2))
 		}
-		return slip.Fixnum(0)
+		return slip.Fixnum(sv.start2)
 	}
 	if len(seq2) == 0 || len(seq2) < len(seq1) {
 		return nil
@@ -229,7 +226,7 @@ func (sv *searchVars) searchList(s *slip.Scope, seq1, seq2 slip.List, depth int)
 	if sv.fromEnd {
 		last := seq1[len(seq1)-1]
 		for i := len(seq2) - 1; 0 <= i; i-- {
-			if i < len(seq1) {
+			if i < len(seq1)-1 {
 				break
 			}
 			v2 := seq2[i]
@@ -296,15 +293,9 @@ func (sv *searchVars) inString(s *slip.Scope, seq2 slip.String, depth int) slip.
 	case nil:
 		seq1 = slip.List{}
 	case slip.List:
-		if 0 < len(s1) {
-			return nil
-		}
-		return slip.Fixnum(0)
+		seq1 = s1
 	case *slip.Vector:
-		if 0 < s1.Length() {
-			return nil
-		}
-		return slip.Fixnum(0)
+		seq1 = s1.AsList()
 	case slip.String:
 		ra := []rune(s1)
 		seq1 = make(slip.List, len(ra))
